@@ -29,6 +29,8 @@ def main():
                 results.append((m["id"], "STALE (pattern not found)"))
                 continue
             new = orig.replace(m["find"], m["replace"], 1)
+            for a, b in m.get("also", []):
+                new = new.replace(a, b, 1)
             open(path, "w").write(new)
             try:
                 status = []
